@@ -2,7 +2,7 @@
 (* Family "empty": SetObj v ; NewEmpty ; CopyTo ; FreshObj ; CopyFrom for every shape and value.  Serves C03 C04 C07(to) C20. *)
 EXTENDS Shapes, TLC, Json
 CONSTANTS MCDeep, MCLong
-VARIABLES sh, M, obj, tf, dg, pn, pc, hist, viol, aux
+VARIABLES sh, M, Mi, obj, tf, dg, pn, pc, hist, viol, aux
 MCShapes == AllSessionShapes
 MCScript == IF MCLong THEN <<"SetObj", "NewEmpty", "CopyTo", "FreshObj", "CopyFrom">> ELSE <<"SetObj", "NewEmpty", "CopyTo", "FreshObj", "CopyFrom">>
 MCProps == {"C03", "C04", "C07", "C20"}
